@@ -17,6 +17,7 @@ type TNode struct {
 	TR bool      `json:"tr,omitempty"`
 	EL bool      `json:"el,omitempty"` // trim markers of the end tag
 	ER bool      `json:"er,omitempty"`
+	Sp int       `json:"sp,omitempty"` // spacing inside the delimiters: 0 " ", 1 none, 2 newline, 3 blanks and tab
 }
 
 type Clause struct {
@@ -39,6 +40,10 @@ var includeMode int
 // captureDepth counts the enclosing capture blocks while Source() writes a tree.
 var captureDepth int
 
+var spacings = []string{" ", "", "\n", "  \t"}
+
+func sp(n *TNode) string { return spacings[n.Sp%len(spacings)] }
+
 func mk(l bool) string {
 	if l {
 		return "-"
@@ -59,7 +64,7 @@ func (n *TNode) write(sb *strings.Builder) {
 	case "text":
 		sb.WriteString(n.S)
 	case "obj":
-		sb.WriteString(dOL + mk(n.TL) + " " + n.S + " " + mk(n.TR) + dOR)
+		sb.WriteString(dOL + mk(n.TL) + sp(n) + n.S + sp(n) + mk(n.TR) + dOR)
 	case "tag":
 		if wrapIncludes && strings.HasPrefix(n.S, "include ") {
 			arg := strings.TrimPrefix(n.S, "include ")
@@ -89,7 +94,7 @@ func (n *TNode) write(sb *strings.Builder) {
 		if i := strings.IndexByte(name, ' '); i >= 0 {
 			name = name[:i]
 		}
-		sb.WriteString(dTL + mk(n.TL) + " " + n.S + " " + mk(n.TR) + dTR)
+		sb.WriteString(dTL + mk(n.TL) + sp(n) + n.S + sp(n) + mk(n.TR) + dTR)
 		if name == "capture" {
 			captureDepth++
 		}
@@ -148,7 +153,7 @@ type Gen struct {
 	hint        int            // length of the value the next filter is applied to, -1 if unknown
 }
 
-var allFeatures = []string{"trim", "raw", "comment", "tablerow", "cycle", "capture", "case", "custom", "errors", "filters", "assign", "breaks", "unless", "loopmods", "nest"}
+var allFeatures = []string{"spacing", "trim", "raw", "comment", "tablerow", "cycle", "capture", "case", "custom", "errors", "filters", "assign", "breaks", "unless", "loopmods", "nest"}
 
 func NewGen(r *Rng, budget int) *Gen {
 	g := &Gen{r: r, feat: map[string]bool{}, budget: budget, used: map[string]int{}, hint: -1}
@@ -510,6 +515,10 @@ func (g *Gen) cond(sc scope) string {
 				return pick(g.r, sc.maps) + "." + pick(g.r, keyWords)
 			}
 		}
+		if g.r.Chance(0.4) { // comparisons across kinds
+			return pick(g.r, []string{g.numAtom(sc) + " == " + g.strAtom(sc), g.strAtom(sc) + " < " + g.numAtom(sc), "arr == nums", "nil != " + g.numAtom(sc),
+				g.numAtom(sc) + " >= 2.5", "n == 1.0", "f > n", `"10" == 10`, "nums contains 3", `s contains 1`, "m contains " + quote(pick(g.r, keyWords))})
+		}
 		return pick(g.r, []string{"true", "false", "nil", "x", "x == nil"})
 	}
 	c := one()
@@ -538,6 +547,9 @@ func (g *Gen) text() *TNode {
 }
 
 func (g *Gen) trim(n *TNode) *TNode {
+	if g.feat["spacing"] && g.r.Chance(0.3) {
+		n.Sp = g.r.Range(1, 3)
+	}
 	if g.feat["trim"] {
 		n.TL, n.TR, n.EL, n.ER = g.r.Chance(0.2), g.r.Chance(0.2), g.r.Chance(0.2), g.r.Chance(0.2)
 	}
@@ -754,16 +766,29 @@ func (g *Gen) node(sc *scope, depth int) *TNode {
 // errorConstructs are filled into the placeholder nodes above.
 var errObjs = []string{`n | divided_by: 0`, `s | modulo: "x"`, `arr | concat: 5`, `undefined_var_zz`, `s | slice: "q"`,
 	// misspelt filter names (undefined filters are reported at render time)
+	`s | upcase: 1, 2`, `x | plus: 1`, `s | `, `s | join | | size`, `(1..`, `n.`, `arr[`,
 	`s | upcas`, `s | lcase`, `arr | jon`, `arr | sise`, `s | xstrip`, `s | url_code`, `n | min`, `s | nosuchfilter`, `arr | frist`, `s | appnd: "x"`, `n | tims: 2`}
-var errTags = []string{`include 5`, `include nil`, `cycle "a"`, `assign q = n | divided_by: 0`, `echo s | divided_by: 0`}
+var errTags = []string{`include 5`, `include nil`, `cycle "a"`, `assign q = n | divided_by: 0`, `echo s | divided_by: 0`,
+}
+
+// constructs that make the whole template fail to parse (drawn rarely: a template that
+// does not parse exercises nothing else)
+var parseErrObjs = []string{`s | `, `s | join | | size`, `(1..`, `n.`, `arr[`}
+var parseErrTags = []string{`endif`, `else`, `no_such_tag 1`, `for x`, `assign = 3`, `cycle`, `when 1`, `if`}
 
 func (g *Gen) fixErrors(ns []*TNode) {
 	for _, n := range ns {
 		if n.S == "" && n.K == "obj" {
 			n.S = pick(g.r, errObjs)
+			if g.r.Chance(0.08) {
+				n.S = pick(g.r, parseErrObjs)
+			}
 		}
 		if n.S == "" && n.K == "tag" {
 			n.S = pick(g.r, errTags)
+			if g.r.Chance(0.08) {
+				n.S = pick(g.r, parseErrTags)
+			}
 			if g.NoCustom && strings.HasPrefix(n.S, "echo") {
 				n.S = "include 5"
 			}
